@@ -28,3 +28,89 @@ inductive RespVal where
 deriving Repr, Inhabited
 
 end Sugar
+
+namespace Sugar
+
+/-- split at the first CR LF -/
+def splitCrlf : Bytes → Option (Bytes × Bytes)
+  | [] => none
+  | [_] => none
+  | 13 :: 10 :: r => some ([], r)
+  | c :: r => (splitCrlf r).map fun (l, r') => (c :: l, r')
+
+def cleanLine (l : Bytes) : Bool := l.all fun c => c != 13 && c != 10
+
+/-- strict RESP2 parser: first value of the buffer and the residue. Fuel bounds array nesting. -/
+def parseOne : Nat → Bytes → Option (RespVal × Bytes)
+  | 0, _ => none
+  | _ + 1, [] => none
+  | f + 1, t :: r =>
+    match splitCrlf r with
+    | none => none
+    | some (line, rest) =>
+      if !cleanLine line then none else
+      if t == 43 then some (.simple line, rest)
+      else if t == 45 then some (.error line, rest)
+      else if t == 58 then (parseInt64 line).map fun i => (.int i, rest)
+      else if t == 36 then
+        if line == b "-1" then some (.nullBulk, rest) else
+        if !allDigits line then none else
+        let n := digitsVal line
+        if rest.length < n + 2 then none else
+        let body := rest.take n
+        match rest.drop n with
+        | 13 :: 10 :: rest' => some (.bulk body, rest')
+        | _ => none
+      else if t == 42 then
+        if line == b "-1" then some (.nullArr, rest) else
+        if !allDigits line then none else
+        let n := digitsVal line
+        let rec elems (k : Nat) (buf : Bytes) (acc : List RespVal) : Option (List RespVal × Bytes) :=
+          match k with
+          | 0 => some (acc.reverse, buf)
+          | k + 1 =>
+            match parseOne f buf with
+            | none => none
+            | some (v, buf') => elems k buf' (v :: acc)
+        (elems n rest []).map fun (xs, rest') => (.arr xs, rest')
+      else none
+
+/-- a reply is well-formed iff it is exactly one RESP value -/
+def parseReply (bs : Bytes) : Option RespVal :=
+  match parseOne (bs.length + 1) bs with
+  | some (v, []) => some v
+  | _ => none
+
+end Sugar
+
+namespace Sugar
+
+mutual
+/-- canonical RESP2 encoding -/
+def RespVal.enc : RespVal → Bytes
+  | .simple s => simpleStr s
+  | .error s => 45 :: s ++ crlf
+  | .int i => intReply i
+  | .bulk s => bulkStr s
+  | .nullBulk => nilBulk
+  | .nullArr => b "*-1\r\n"
+  | .arr xs => arrHdr xs.length ++ RespVal.encList xs
+def RespVal.encList : List RespVal → Bytes
+  | [] => []
+  | x :: r => x.enc ++ RespVal.encList r
+end
+
+instance : BEq RespVal := ⟨fun a c => a.enc == c.enc⟩
+
+/-- the string a client reads from a simple or bulk string reply -/
+def RespVal.str? : RespVal → Option Bytes
+  | .simple s => some s
+  | .bulk s => some s
+  | _ => none
+
+def RespVal.isNil : RespVal → Bool
+  | .nullBulk => true
+  | .nullArr => true
+  | _ => false
+
+end Sugar
